@@ -66,6 +66,16 @@ func boundary() []Scenario {
 		{Op: "events", Kind: "perform", Conf: 1, FirstOnly: true},
 		{Op: "logs", Nodes: all4, Logs: seqInts(165, 167), BlkOff: 9},
 		{Op: "round", Nodes: all4, Byz: "copy1"}, {Op: "round", Nodes: all4, Byz: "copy1"}, {Op: "round", Nodes: all4, Byz: "copy1"}}})
+	// the lockout window (100 s) restarts with the newer report: 110 s after the first acceptance and 50 s after the
+	// second the unit is still in flight everywhere, although the log is offered once more
+	ss = append(ss, Scenario{Family: "lockout-window-restarted-by-newer-report", N: 4, F: 1, Byz: []int{3}, Steps: []Step{
+		{Op: "logs", Nodes: all4, Logs: seqInts(180, 182)}, {Op: "round", Nodes: all4, Byz: "honest"}, {Op: "sleep", Secs: 58},
+		{Op: "restart", Nodes: []int{1}}, {Op: "round", Nodes: all4, Byz: "honest"},
+		{Op: "logs", Nodes: []int{1}, Logs: seqInts(180, 182), BlkOff: 5},
+		{Op: "round", Nodes: []int{1, 0, 2, 3}, Byz: "copy1"}, {Op: "round", Nodes: []int{1, 0, 2, 3}, Byz: "copy1"},
+		{Op: "sleep", Secs: 46},
+		{Op: "logs", Nodes: all4, Logs: seqInts(180, 182), BlkOff: 9},
+		{Op: "round", Nodes: all4, Byz: "copy1"}, {Op: "round", Nodes: all4, Byz: "copy1"}}})
 	// an unusual but legal gas configuration: some units of work alone exceed the report gas limit (single-upkeep
 	// reports); what the report carries must still be, field for field, what was checked and agreed
 	ss = append(ss, Scenario{Family: "heavy-gas-over-report-limit", N: 4, F: 1, Byz: []int{3}, Heavy: true, Steps: []Step{
